@@ -18,7 +18,26 @@ def socks_tunnel_job(ctx):
     r = ctx.harness("c15", ["--vectors", s["out"]], name="c15.tun", env={"VERIF_ROOT": ROOT})
     r["tlc"] = {"distinct": s["distinct"], "states": s["states"]}
     c = r["counters"]
-    for k in ("tunnel_level_requests", "forwarder_level_relays"):
+    for k in ("tunnel_level_requests", "forwarder_level_relays", "tunnel_level_flow_handshakes"):
+        if c.get(k, 0) == 0:
+            raise ToolError("vacuous run: %s = 0 (%s)" % (k, "; ".join(r.get("notes", []))))
+    return r
+
+
+def socks_probe_job(ctx):
+    """The multiplexer requests of the tunnel-level slice alone (Tier = "probe"): CONNECT _udp2 / _icmp made with
+    credentials through the real Tunnel + HTTP/1.1 / HTTP/2 codecs with the SOCKS5 forwarder, against an upstream
+    that fails the forwarder's probe UDP ASSOCIATE in every way (connection refused, its side ended after every
+    number of octets, silence, credentials / every method refused, malformed replies, every failure code): the
+    response (status, X-Warning code, challenge) is the one TunnelCodes.tla gives for the class the dialogue ends
+    in; accepted requests then open UDP flows, each handshake carrying the session's credentials. Run by C10."""
+    ctx.build("c15")
+    s = ctx.tlc("MCSocks5", "MCSocks5.probe.cfg", name="MCSocks5.probe", workers=4, timeout=600, coverage=False)
+    ctx.spec_must_hold(s)
+    r = ctx.harness("c15", ["--vectors", s["out"]], name="c15.probe", env={"VERIF_ROOT": ROOT})
+    r["tlc"] = {"distinct": s["distinct"], "states": s["states"]}
+    c = r["counters"]
+    for k in ("tunnel_level_requests", "tunnel_level_flow_handshakes"):
         if c.get(k, 0) == 0:
             raise ToolError("vacuous run: %s = 0 (%s)" % (k, "; ".join(r.get("notes", []))))
     return r
@@ -59,6 +78,7 @@ def run(ctx):
         "forwarder_level_requests": c.get("forwarder_level_requests", 0),
         "forwarder_level_relays": c.get("forwarder_level_relays", 0) + tc.get("forwarder_level_relays", 0),
         "tunnel_level_requests": tc.get("tunnel_level_requests", 0),
+        "tunnel_level_flow_handshakes": tc.get("tunnel_level_flow_handshakes", 0),
         "brute_force_chunkings": c.get("brute_force_chunkings", 0),
         "udp_header_vectors": c.get("udp_wrap_vectors", 0) + c.get("udp_unwrap_vectors", 0),
         "parser_vectors": rt["counters"].get("reply_vectors", 0) + rt["counters"].get("udp_unwrap_vectors", 0),
@@ -75,7 +95,13 @@ def run(ctx):
                 "and the upload); the tunnel-level slice (every credentials class x servers that accept / refuse / answer "
                 "out of turn, destination x bound address, UDP multiplexer requests with credentials) additionally runs "
                 "through the real Tunnel + HTTP/1.1 and HTTP/2 codecs with the SOCKS5 forwarder against a scripted SOCKS5 "
-                "server on loopback TCP (octets at the server, response class, octets and end of stream at the client); "
+                "server on loopback TCP (octets at the server, the response - status, X-Warning code, challenge - the specification's table "
+                "TunnelCodes.tla gives for the class the dialogue ends in, octets and end of stream at the client); multiplexer requests "
+                "(_udp2 / _icmp) x credentials source x extended variant meet an upstream that fails the probe in every way (refused "
+                "connection, end of stream after every number of octets, silence until the establishment timer, every failure code, "
+                "malformed replies), and an accepted _udp2 request then sends datagrams of two sources: every handshake the forwarder "
+                "makes for a flow (and none for a second flow of a source) must carry the octets of the session's messages - with Basic, "
+                "SNI or no credentials, RFC 1929 or extended authentication with and without a User-Agent; "
                 "RFC 1928 section 7 vectors go through a real UdpAssociation and a loopback relay. Non-trivial = credentials present, or more than one chunk, "
                 "or a result other than Established; distinct by (scenario class, chunking).",
         "samples": r["samples"][:4],
@@ -92,6 +118,6 @@ def run(ctx):
         "UDP ASSOCIATE success is exercised only towards the harness's IPv4 loopback relay; loopback UDP is assumed not to lose single datagrams",
         "over real TCP only dialogues in which the client reads the server's stream to its end are replayed (a reset could otherwise destroy octets the scripted server has not read)",
         "destinations: besides plain IPv4/IPv6 literals the IPv6 forms that embed an IPv4 address (mapped, compatible, NAT64, 6to4) and the wildcard / loopback / broadcast addresses",
-        "tunnel level: only what an HTTP request can carry (destinations that are an authority, request heads of at most 1024 octets over HTTP/1.1, no non-ASCII User-Agent); the response status is compared as 200 / not 200 (the status of each failure class is C01's); the scripted server says all it has to say at once and ends its side once the client's octets arrived",
+        "tunnel level: only what an HTTP request can carry (destinations that are an authority, request heads of at most 1024 octets over HTTP/1.1, no non-ASCII User-Agent); the scripted server says all it has to say at once and ends its side once the client's octets arrived",
         "trusted: TLC, the scripted transport and relay in the harness, the doors verif::socks",
     ])
